@@ -40,6 +40,9 @@ pub struct Plan10 {
     /// reference has no folder to resolve against (plain map), inline / absolute ones stay usable
     #[serde(default)]
     pub parent_none: bool,
+    /// process-wide log level during all calls of this case ("off" | "debug" | "trace")
+    #[serde(default)]
+    pub log_level: String,
     /// FS history for external references: states of the map file between successive calls
     /// ("missing" | "O" | "O2" | "denied" | "malformed")
     #[serde(default)]
@@ -130,7 +133,8 @@ fn plan10(seed: u64, run: u64, tier: Tier) -> Plan10 {
     let mut expected_open = None;
     let ref_text;
     let ref_kind;
-    let url_name = *rng.pick(&["a.js.map", "maps/a.js.map", "../maps/out.map", "./x.map"]);
+    // `?` and `#` are legal in file and folder names
+    let url_name = *rng.pick(&["a.js.map", "maps/a.js.map", "../maps/out.map", "./x.map", "maps/what?.js.map", "issue#4711/a.js.map", "a.js.map?v=1"]);
     // in a minority of runs the program contains literals that merely look like the comment
     let lookalike = rng.chance(1, 8);
     match rng.below(16) {
@@ -293,6 +297,7 @@ fn plan10(seed: u64, run: u64, tier: Tier) -> Plan10 {
         }
     }
     Plan10 {
+        log_level: (*rng.pick(&["off", "off", "off", "debug", "trace"])).to_string(),
         parent_none,
         orig_map2,
         fs_history,
@@ -454,6 +459,14 @@ impl Engine for C10 {
                 key.to_string()
             }
         };
+        log::set_max_level(match p.log_level.as_str() {
+            "debug" => log::LevelFilter::Debug,
+            "trace" => log::LevelFilter::Trace,
+            _ => log::LevelFilter::Off,
+        });
+        if p.log_level == "debug" || p.log_level == "trace" {
+            st(&mut rep, "probe:logger-switched-on", 1);
+        }
         let mut p = p;
         if p.parent_none {
             p.benign.parent = crate::fsim::ParentMode::ReturnNone;
@@ -697,6 +710,7 @@ impl Engine for C10 {
             }
             st(&mut rep, "probe:fs-history-run", 1);
         }
+        log::set_max_level(log::LevelFilter::Off);
         let mut seen = BTreeSet::new();
         viol.retain(|v| seen.insert(v.key.clone()));
         rep.violations = viol;
@@ -818,6 +832,7 @@ impl Engine for C10 {
             "probe:eintr-during-map-read",
             "probe:fs-history-run",
             "probe:usable-map-without-parent-folder",
+            "probe:logger-switched-on",
         ]
     }
 }
